@@ -456,6 +456,57 @@ def _close(a, b, tol=1e-11):
     return abs(a - b) <= tol * max(1.0, abs(a), abs(b))
 
 
+def planner_flag(pg, uv):
+    """The two oracle inputs of the model of make_fourier_transform, taken from the running code: does the float
+    get_fft_parameters accept the uv grid (None = no), and if so the outcome of the planner's estimate
+    (True = not `fft > mft`), recomputed with the code's own expression."""
+    from hcipy.fourier.fast_fourier_transform import get_fft_parameters, make_fft_grid
+    try:
+        q, fov, shift = get_fft_parameters(uv, pg)
+    except ValueError:
+        return None
+    og = make_fft_grid(pg, q, fov, shift)
+    n_in = pg.shape.astype('float') * q
+    n_out = og.shape.astype('float')
+    fft = 4 * np.prod(n_in) * np.log2(np.prod(n_in))
+    mft = 4 * (np.prod(pg.shape) * n_out[1] + np.prod(n_out) * pg.shape[0])
+    return not bool(fft > mft)
+
+
+def lens_requests(case, obs, rec, rng, lines, plan):
+    """Pipeline tie: the modelled selection + selected pipeline + norm factor on unit impulses (driver op `lens`)."""
+    p = case['pupil']
+    fo = case['focal']
+    pg, fg = obs['pupil_grid'], obs['focal_grid']
+    if rec.get('d4') or 'uv_grid' not in rec:
+        return
+    nx, ny = p['dims']
+    if fg.is_regular and fg.is_('cartesian'):
+        flag = planner_flag(pg, rec['uv_grid'])
+        mx, my = int(fg.dims[0]), int(fg.dims[1])
+        for i in range(2):
+            jx, jy = int(rng.integers(0, nx)), int(rng.integers(0, ny))
+            kx, ky = int(rng.integers(0, mx)), int(rng.integers(0, my))
+            d = 'fwd' if (i == 0 or rng.random() < 0.5) else 'bwd'
+            if flag is None:
+                cheaper = 0                      # float test rejects: the code uses the MFT on the given grid
+            elif i == 0:
+                cheaper = int(flag)              # the code's own planner outcome: methods must coincide
+            else:
+                cheaper = int(rng.integers(0, 2))   # whichever method: the numbers must still be the code's
+            emu = int(rng.integers(0, 2))
+            lines.append('C03 lens %s %d %d [%d,%d] [%d,%d]' % (d, cheaper, emu, jx, jy, kx, ky))
+            plan.append(('lens', rec, d, jx, jy, ky * mx + kx, cheaper, flag))
+    elif fo['kind'] == 'separated':
+        xs, ys = fo['x'], fo['y']
+        for i in range(2):
+            jx, jy = int(rng.integers(0, nx)), int(rng.integers(0, ny))
+            kx, ky = int(rng.integers(0, len(xs))), int(rng.integers(0, len(ys)))
+            cheaper = int(rng.integers(0, 2))
+            lines.append('C03 lens-sep %d [%d,%d] [%d,%d] %s %s' % (cheaper, jx, jy, kx, ky, rat_list(xs), rat_list(ys)))
+            plan.append(('lens', rec, 'fwd', jx, jy, ky * len(xs) + kx, cheaper, 'sep'))
+
+
 def model_requests(case, obs, rng):
     """Request lines for one case and a plan describing how to compare the answers."""
     p = case['pupil']
@@ -499,6 +550,7 @@ def model_requests(case, obs, rng):
                 else:
                     continue        # polar -> cartesian conversion is not rational
             plan.append(('impulse', rec, jx, jy, kf))
+        lens_requests(case, obs, rec, rng, lines, plan)
     return lines, plan
 
 
@@ -554,6 +606,15 @@ def compare_model(ctx, case, obs, plan, answers):
                 ctx.disagree('C03 uv weights', {'case': case, 'impl': wf_impl, 'model': wf_model})
             cls = kv['class']
             ctx.count('class:%s/%s' % (cls, rec['ft']))
+            fo_ = case['focal']
+            if (fo_['kind'] == 'ffpg' and fo_['num_airy'] is None and Fraction(fo_['q']) >= 1
+                    and Fraction(rec['lam']) * Fraction(rec['f']) == Fraction(fo_['f']) * Fraction(fo_['lam'])):
+                # theorem focalFromPupil_full_conjugate: the constructor's grid (full field of view, q >= 1) is a full
+                # conjugate at the lam*f it was built for -- for the model's grid, which was just compared with the code's
+                ctx.count('theorem:ffpg(q>=1)-is-full-conjugate')
+                if cls != 'full':
+                    ctx.disagree('C03 constructor grid not classified full (focalFromPupil_full_conjugate)',
+                                 {'case': case, 'lam': rec['lam'], 'model': cls})
             if (cls == 'full') != rec['full']:
                 ctx.disagree('C03 full-conjugate classification', {'case': case, 'lam': rec['lam'], 'model': cls, 'oracle_full': rec['full']})
             native = bool(hcipy.is_fft_grid(uv, pg))
@@ -569,6 +630,42 @@ def compare_model(ctx, case, obs, plan, answers):
                 g = float(parse_rat(kv['gain']))
                 if g != 1.0 or not _close(g, rec['gain'], 1e-9):
                     ctx.disagree('C03 power gain', {'case': case, 'lam': rec['lam'], 'model': kv['gain'], 'impl': rec['gain']})
+        elif kind == 'lens':
+            if not cur_grid_ok:
+                continue
+            _, rec, d, jx, jy, kf, cheaper, flag = item
+            kv = _kv(resp)
+            c_, t_ = kv['val'].split(':')
+            ph = 2 * math.pi * float(parse_rat(t_))
+            want = float(parse_rat(c_)) * complex(math.cos(ph), math.sin(ph))
+            jf = jy * p['dims'][0] + jx
+            if d == 'fwd':
+                e = pg.zeros(dtype=complex)
+                e[jf] = 1.0
+                got = complex(np.asarray(prop.forward(hcipy.Wavefront(e, rec['lam'])).electric_field)[kf])
+            else:
+                e = fg.zeros(dtype=complex)
+                e[kf] = 1.0
+                got = complex(np.asarray(prop.backward(hcipy.Wavefront(e, rec['lam'])).electric_field)[jf])
+            real = {'FastFourierTransform': 'fft', 'MatrixFourierTransform': 'mft', 'NaiveFourierTransform': 'naive'}.get(rec['ft'], rec['ft'])
+            ctx.count('lens:%s model=%s code=%s' % (d, kv['method'], real))
+            if not abs(got - want) <= TOL * max(1.0, abs(want)):
+                ctx.count('DISAGREE lens pipeline %s model=%s code=%s' % (d, kv['method'], real))
+                ctx.disagree('C03 lens pipeline (%s, model method %s, code %s)' % (d, kv['method'], real),
+                             {'case': case, 'lam': rec['lam'], 'dir': d, 'pupil_index': [jx, jy], 'focal_index': kf,
+                              'impl': str(got), 'model': str(want), 'model_method': kv['method'], 'impl_class': rec['ft']})
+            if flag == 'sep' or flag is None:
+                expect = 'mft'
+                if flag is None:
+                    ctx.count('lens:uv-grid-not-accepted-by-get_fft_parameters')
+            elif cheaper == int(flag):
+                expect = real
+            else:
+                expect = None          # the other planner outcome: only the numbers are compared
+            if expect is not None and (kv['method'] != expect or real != expect):
+                ctx.count('DISAGREE lens method model=%s code=%s' % (kv['method'], real))
+                ctx.disagree('C03 lens method selection', {'case': case, 'lam': rec['lam'], 'model': kv['method'], 'impl': rec['ft'],
+                                                           'cheaper': cheaper, 'float_native_and_planner': flag})
         elif kind == 'impulse':
             if not cur_grid_ok:
                 continue
